@@ -11,21 +11,24 @@ CT = "c15case"
 
 MANIFEST = dict(
     text=("Theorems (Props/C15.v; axioms: classical reals, classic, functional extensionality via Coquelicot; the "
-          "primitive-integer axioms of Bignums for the evaluator lemma), about the real-number instance of the "
+          "primitive-integer axioms of Bignums/Coq-Interval for two numeric facts), about the real-number instance of the "
           "code-shaped model of Sample.decay_time/find_root (Newton iteration with the code's cap of 20 steps, the "
-          "|f|<1e-10 stop, ZeroDivision/Value/Overflow errors as outcomes, final 0.1% guard): whenever the model "
-          "returns a time t, |sum_i A_i(0) 2^(-t/T_i) - target| <= 0.1% target for the TRUE summed activity, for every "
-          "smallest rest time To (returned_time_accurate, via f = A - target for every rest list, which uses C14's "
-          "exact rest decay); the time the property asks for is unique and independent of the rest-time list "
-          "(strict monotonicity of a sum of exponentials); a Newton step with the true derivative from the left "
-          "of the root moves towards it and does not pass it (convexity).  Two full-strength statements are REFUTED on the faithful "
-          "model with witnesses: 'returns 0 exactly when A(0) <= target' (the test is f(0) < target, i.e. A(0) < 2 "
-          "target: one product of 3 uCi, target 2 uCi) with the partial results that do hold; 'df is the derivative "
-          "of f' (df = (1-To) f', zero for To = 1 h), true when 0 is among the rest times.  Tie: samples x rest-time "
-          "lists (with/without 0, any order) x targets 1e-9..10 x A(0); for every call Coq decides the property's "
-          "postcondition on the implementation's own activities at removal (exact rational test for the 0 case, "
-          "proved-sound interval sign decision for the 0.1% accuracy) and runs the interval instance of the model "
-          "beside the implementation (same outcome kind - 0 / time / which exception - and same time to 2^-20)."),
+          "|f|<1e-10 stop, ZeroDivision/Value/Overflow errors as outcomes, final 0.1% guard; the form of the early-exit "
+          "test and of df is regenerated from /repo on every run): whenever the model returns a time t, "
+          "|sum_i A_i(0) 2^(-t/T_i) - target| <= 0.1% target for the TRUE summed activity, for every smallest rest "
+          "time To (via f = A - target for every rest list, which uses C14's exact rest decay); it returns 0 exactly "
+          "when A(0) <= target (C15_zero_iff_already_below) and df is the derivative of f (C15_df_is_derivative) - "
+          "both refuted before commits 0f2a2da/34bcc0c, now proved for the source as it stands, and failing again if "
+          "the source is reverted; the time the property asks for is unique and, over the reals, independent of the "
+          "rest-time list; a Newton step with the true derivative from the left of the root moves towards it and does "
+          "not pass it (convexity).  One full-strength statement remains REFUTED on the faithful model, with witness "
+          "(known finding): because exp overflows above 709.78, the answer depends on the rest-time list and an error "
+          "other than RuntimeError is raised (1 uCi, half-life 3.6 s, target 2 uCi: rest_times=[2] -> OverflowError, "
+          "[0] -> 0).  Tie: samples x rest-time lists (with/without 0, any order) x targets 1e-9..10 x A(0); for every "
+          "call Coq decides the property's postcondition on the implementation's own activities at removal (exact "
+          "rational test for the 0 case, proved-sound interval sign decision for the 0.1% accuracy) and runs the "
+          "interval instance of the model beside the implementation (same outcome kind - 0 / time / which exception - "
+          "and same time to 2^-20)."),
     note="Modelled not verified: libm exp/log, float overflow threshold of exp (709.78), Python max/min/sum order. "
          "Convergence of Newton within 20 steps is not proved (the guard makes the returned value correct regardless). "
          "RuntimeError is allowed by the property and is counted, not reported. Activities at removal are those the "
@@ -77,7 +80,17 @@ def run(ctx):
     ctx.cov["samples"] = meta[3:6]
     ctx.assumptions = ["accuracy test 0.1% x (1 + 2^-20)", "model/implementation times compared to 2^-20 (1+|t|)",
                        "targets exactly at A(0) are not drawn (0.999 and 1.001 are)"]
-    if proved:
+    model_ok = proved
+    if not proved:
+        # a broken obligation is not yet a violation: the search for a failing input still runs the model
+        # beside the implementation when the model itself builds
+        kind, msg = ctx.broken
+        ctx.note("%s broke: %s" % (kind, msg))
+        if kind == "proof":
+            with vlib.Lock():
+                vlib.regen(ctx.pid)   # another check may have regenerated Gen from a different tree meanwhile
+                model_ok, _ = vlib.make(["Model/C15Check.vo"])
+    if model_ok:
         verdicts = run_model(cases)
         ctx.cov["evaluations"] = len(cases)
         ctx.cov["distinct_nontrivial"] = sum(1 for m in meta if m["kind"] in ("value", "inaccurate", "negative"))
@@ -110,9 +123,6 @@ def run(ctx):
                        "rest_times %r, target %r -> %r)" % (len(unexplained), v, m["formula"], m["rest_times"], m["target"], m["outcome"]),
                        dict(obligation="correspondence C15 (Model/DecayTime.v vs Sample.decay_time)",
                             cases=[dict(verdict=v, input=m, how=how(m)) for v, m in unexplained[:10]]), found_input=False)
-    else:
-        kind, msg = ctx.broken
-        ctx.note("%s broke: %s" % (kind, msg))
     seen = set()
     for d in direct:
         if d["signature"] in seen:
@@ -120,7 +130,7 @@ def run(ctx):
         seen.add(d["signature"])
         ctx.report(d["signature"], d["what"], dict(input=d["input"], how=how(d["input"]) if "formula" in d["input"] else ""))
     ctx.cov["signatures_reported"] = sorted(set(v[0] for v in ctx.violations) | set(s for s, _ in ctx.known_printed))
-    if not proved and not direct:
+    if not proved and not ctx.violations:
         kind, msg = ctx.broken
         ctx.report("C15:" + kind, "%s no longer checks: %s" % (kind, msg), dict(obligation=kind, detail=msg), found_input=False)
 
